@@ -80,6 +80,7 @@ def run(prog, rep):
     cx = C18.Ctx(prog, rep)
     before = rep.obligations
     C18.from_files_cases(cx)
+    C18.two_readers_cases(cx)
     for (rule, qual), (count, inp, msg) in cx.fail.items():
         fails[("C12.flags-forwarded", qual)] = (count, inp, msg)
     r18 = rep.rules.pop("C18.from-files", None)
